@@ -13,13 +13,13 @@ namespace ConcVerif.Rcu
 def EView : Pc → Pc
   | .eOrig c a => .eOrig c a
   | .eDel c o => .eDel c o
-  | .eMark c o => .eDel c o
-  | .eBack c o => .eDel c o
-  | .eNext c o _ => .eDel c o
-  | .eUnl c o _ _ => .eDel c o
-  | .eFix c o _ _ => .eAlloc c o
-  | .eAlloc c o => .eAlloc c o
-  | .eCons c o _ => .eAlloc c o
+  | .eAlloc c o => .eDel c o
+  | .eCons c o _ => .eDel c o
+  | .eMark c o _ => .eDel c o
+  | .eBack c o _ => .eDel c o
+  | .eNext c o _ _ => .eDel c o
+  | .eUnl c o _ _ _ => .eDel c o
+  | .eFix _ o _ _ z => .eZh o z
   | .eZh o z => .eZh o z
   | .pushStore (.erase o) z _ => .eZh o z
   | .pushCas (.erase o) z _ => .eZh o z
@@ -320,12 +320,13 @@ theorem invE_link {s s' : St} {t : Tid} (h : InvE s) (n : Nat) (hn : n ∉ s.ord
     rw [hpe u, hnopend u] at hu; cases hu
 
 /-- the unlink store of `erase`: `c` leaves `lst`, its erase is now in progress -/
-theorem invE_unlink {s : St} {t : Tid} (h : InvE s) {c : Nat} {o p x : Option Nat} (hpc : s.pc t = .eUnl c o p x)
+theorem invE_unlink {s : St} {t : Tid} (h : InvE s) {c z : Nat} {o p x : Option Nat} (hpc : s.pc t = .eUnl c o p x z)
+    (hz : (s.recs z).znode = some c)
     (nodes' : Nat → Node) (head' : Option Nat)
     (hoth : ∀ u, u ≠ t → EView (s.pc u) = .idle) (hnd : s.lst.Nodup) (hcl : c ∈ s.lst) (hco : c ∈ s.order)
     (hx : (s.nodes c).next = x) (hxl : ∀ y, x = some y → y ∈ s.lst ∧ y ≠ c)
     (hnx : ∀ y, y ∉ s.lst ∨ y = c → (nodes' y).next = (s.nodes y).next) :
-    InvE ({ s with nodes := nodes', head := head', lst := s.lst.erase c }.setPc t (.eFix c o p x)) := by
+    InvE ({ s with nodes := nodes', head := head', lst := s.lst.erase c }.setPc t (.eFix c o p x z)) := by
   have hsubE : ∀ y, y ∈ s.lst.erase c → y ∈ s.lst ∧ y ≠ c := by
     intro y hy
     exact ⟨List.mem_of_mem_erase hy, fun e => by subst e; exact (List.Nodup.mem_erase_iff hnd).1 hy |>.1 rfl⟩
@@ -333,12 +334,12 @@ theorem invE_unlink {s : St} {t : Tid} (h : InvE s) {c : Nat} {o p x : Option Na
     intro u; by_cases hut : u = t
     · subst hut; simp [hpc, EView, pendNode]
     · rw [hoth u hut]; rfl
-  have hpnew : ∀ u y, pendNode ({ s with nodes := nodes', head := head', lst := s.lst.erase c }.setPc t (.eFix c o p x)).eview
-      (EView (({ s with nodes := nodes', head := head', lst := s.lst.erase c }.setPc t (.eFix c o p x)).pc u)) = some y →
+  have hpnew : ∀ u y, pendNode ({ s with nodes := nodes', head := head', lst := s.lst.erase c }.setPc t (.eFix c o p x z)).eview
+      (EView (({ s with nodes := nodes', head := head', lst := s.lst.erase c }.setPc t (.eFix c o p x z)).pc u)) = some y →
       u = t ∧ y = c := by
     intro u y hy
     by_cases hut : u = t
-    · subst hut; simp [EView, pendNode] at hy; exact ⟨rfl, hy.symm⟩
+    · subst hut; simp [EView, pendNode, St.eview, hz] at hy; exact ⟨rfl, hy.symm⟩
     · simp only [setPc_pc, upd_other _ _ _ _ hut] at hy
       have : EView (s.pc u) = .idle := hoth u hut
       rw [show (({ s with nodes := nodes', head := head', lst := s.lst.erase c } : St).pc u) = s.pc u from rfl, this] at hy
@@ -350,7 +351,7 @@ theorem invE_unlink {s : St} {t : Tid} (h : InvE s) {c : Nat} {o p x : Option Na
     intro y hy
     rcases hy with g | ⟨u', g⟩ | ⟨z, g1, g2, g3⟩
     · by_cases e : y = c
-      · subst e; exact Or.inr (Or.inl ⟨t, by simp [EView, pendNode]⟩)
+      · subst e; exact Or.inr (Or.inl ⟨t, by simp [EView, pendNode, St.eview, hz]⟩)
       · exact Or.inl ((List.mem_erase_of_ne e).2 g)
     · simp only [eview_vpc] at g; rw [hpold u'] at g; cases g
     · exact Or.inr (Or.inr ⟨z, g1, g2, g3⟩)
@@ -478,6 +479,18 @@ theorem invE_step_alo {s s' : St} {t : Tid} {e : Ev} (hi : Inv s) (he' : InvE s)
   cases hs <;> cases he
   all_goals (try (frameE h; done))
   all_goals (try exact h)
+
+theorem invE_step_afl {s s' : St} {t : Tid} {e : Ev} (hi : Inv s) (he' : InvE s) (hs : Step s t e s') (he : e.kind = .afl) : InvE s' := by
+  have h := he'
+  cases hs <;> cases he
+  all_goals (try (frameE h; done))
+  case eAloFail c orig hpc =>
+    refine invE_eq (t := t) h (fun u w r hu => hu) rfl rfl rfl (fun _ _ => rfl) (fun u => by
+      by_cases hut : u = t
+      · subst hut; simp [hpc, EView, pendNode]
+      · simp only [setPc_pc, upd_other _ _ _ _ hut]; rfl) (fun _ _ => rfl)
+      (fun w r c' hu hc => Or.inl hc) (fun u hut => rfl) ?_ (fun u hut => by simp [hut])
+    intro w r x hu hx; simp [EView, origOf] at hx
 
 theorem invE_step_con {s s' : St} {t : Tid} {e : Ev} (hi : Inv s) (he' : InvE s) (hs : Step s t e s') (he : e.kind = .con) : InvE s' := by
   have h := he'
@@ -804,13 +817,17 @@ theorem invE_step_ast {s s' : St} {t : Tid} {e : Ev} (hi : Inv s) (he' : InvE s)
     intro c hc hcl
     have : c ≠ h0 := fun e => hcl (e ▸ hw.2.1.1)
     simp [St.setNext, St.setPc, upd_other _ _ _ _ this]
-  case eUnlPrev c orig pp x o hpc ho =>
+  case eUnlPrev c orig pp x z o hpc ho =>
+    have hzn : (s.recs z).znode = some c := by
+      have := hi.d.held t
+      simp only [dview_vpc, hpc, DView, HeldP, dview_zn] at this
+      exact this.1
     have hw := hi.c.wr t
     simp only [cview_vpc, hpc, CView, WriterP, NextIs, cview_lst, cview_order] at hw
     obtain ⟨g1, g2, g3, g4, g5⟩ := hw
     have hnd : s.lst.Nodup := hi.c.lstNd
     have hnx0 : ∀ a ∈ s.lst, (s.nodes a).next = (Below s.lst a).head? := hi.c.nx
-    refine invE_of_view (invE_unlink (t := t) h hpc (upd s.nodes pp { s.nodes pp with next := x }) s.head ?_ hnd g1
+    refine invE_of_view (invE_unlink (t := t) h hpc hzn (upd s.nodes pp { s.nodes pp with next := x }) s.head ?_ hnd g1
       (hi.c.sub c g1) (by rw [hnx0 c g1, g5]) ?_ ?_) rfl
     · intro u hut
       apply Classical.byContradiction
@@ -827,13 +844,17 @@ theorem invE_step_ast {s s' : St} {t : Tid} {e : Ev} (hi : Inv s) (he' : InvE s)
         · exact fun e => hy (e ▸ g4.1)
         · subst hy; exact fun e => not_mem_below_self hnd (e ▸ head_mem_below g4.2)
       rw [upd_other _ _ _ _ this]
-  case eUnlHead c orig x o hpc ho =>
+  case eUnlHead c orig x z o hpc ho =>
+    have hzn : (s.recs z).znode = some c := by
+      have := hi.d.held t
+      simp only [dview_vpc, hpc, DView, HeldP, dview_zn] at this
+      exact this.1
     have hw := hi.c.wr t
     simp only [cview_vpc, hpc, CView, WriterP, NextIs, cview_lst, cview_order] at hw
     obtain ⟨g1, g2, g3, g4, g5⟩ := hw
     have hnd : s.lst.Nodup := hi.c.lstNd
     have hnx0 : ∀ a ∈ s.lst, (s.nodes a).next = (Below s.lst a).head? := hi.c.nx
-    refine invE_of_view (invE_unlink (t := t) h hpc s.nodes x ?_ hnd g1
+    refine invE_of_view (invE_unlink (t := t) h hpc hzn s.nodes x ?_ hnd g1
       (hi.c.sub c g1) (by rw [hnx0 c g1, g5]) ?_ (fun _ _ => rfl)) rfl
     · intro u hut
       apply Classical.byContradiction
@@ -998,6 +1019,7 @@ theorem invE_step {s s' : St} {t : Tid} {e : Ev} (hi : Inv s) (he' : InvE s) (hs
   · exact invE_step_mlk hi he' hs hk
   · exact invE_step_mul hi he' hs hk
   · exact invE_step_alo hi he' hs hk
+  · exact invE_step_afl hi he' hs hk
   · exact invE_step_con hi he' hs hk
   · exact invE_step_des hi he' hs hk
   · exact invE_step_fre hi he' hs hk
